@@ -657,3 +657,69 @@ def exc_2(ctx, rep):
                        'cache file that is a valid pickle of something else (b"N." is None) makes parse() raise AttributeError',
                        reason='isinstance test holds here' if checked else 'inside a try that absorbs Exception')
     rep.minimum('EXC-2', 2)
+
+
+# ---------------------------------------------------------------------------
+# CACHE-6 / CACHE-7: freshness inputs are live; clean-up looks at the access time
+# ---------------------------------------------------------------------------
+def cache_6_7(ctx, rep):
+    rep.rule('CACHE-6', 'the modification time the cache compares with is read from the file system on every call: '
+                        'FileIO.get_last_modified returns os.path.getmtime(...) itself and no method of the file-io classes '
+                        'other than a constructor stores anything on the object')
+    rep.rule('CACHE-7', 'the clean-up of the cache directory removes an entry only by its access time (loading an entry does '
+                        'not change its modification time, so any other time stamp makes an entry that is in use look idle)')
+    FILE_IO = 'parso/file_io.py'
+    prog = ctx.prog
+    mod = prog.mod(FILE_IO)
+    n6 = 0
+    for f in mod.funcs.values():
+        if f.cls is None or f.name == '__init__':
+            continue
+        stores = [n for n in walk_own(f.node) if isinstance(n, ast.Attribute) and isinstance(n.ctx, (ast.Store, ast.Del))
+                  and isinstance(n.value, ast.Name) and n.value.id == (f.params()[0] if f.params() else 'self')]
+        n6 += 1
+        rep.ob('CACHE-6', FILE_IO, f.qual, 'def %s stores nothing on the object' % f.name, not stores,
+               'the file-io object keeps state between calls (%s): the same object used for a later parse reports stale '
+               'information about the file' % (norm(stores[0]) if stores else ''))
+    glm = prog.cls(FILE_IO, 'FileIO').methods.get('get_last_modified')
+    if glm is None:
+        raise AnalysisError('anchor vanished: FileIO.get_last_modified')
+    rets = [n.value for n in walk_own(glm.node) if isinstance(n, ast.Return) and n.value is not None
+            and not (isinstance(n.value, ast.Constant) and n.value.value is None)]
+    ok = bool(rets) and all(isinstance(v, ast.Call) and norm(v.func) in ('os.path.getmtime',) or
+                            (isinstance(v, ast.Attribute) and v.attr == 'st_mtime' and isinstance(v.value, ast.Call)) for v in rets)
+    rep.ob('CACHE-6', FILE_IO, glm.qual, 'returns the live modification time', ok,
+           'get_last_modified does not return os.path.getmtime(...) / os.stat(...).st_mtime of this call')
+    rep.minimum('CACHE-6', 3)
+    # clean-up criterion
+    f = prog.func(CACHE, 'clear_inactive_cache')
+    funcs = [f] + [g for g in prog.mod(CACHE).funcs.values()
+                   if any(isinstance(c, ast.Call) and isinstance(c.func, ast.Name) and c.func.id == g.name for c in walk_own(f.node))]
+    removes = []
+    for g in funcs:
+        for n in walk_own(g.node):
+            if isinstance(n, ast.Call) and norm(n.func) in ('os.remove', 'os.unlink'):
+                removes.append((g, n))
+    if not removes:
+        raise AnalysisError('CACHE-7: clear_inactive_cache removes nothing (anchor changed)')
+    from ..facts import guards_of
+    for g, n in removes:
+        stamps = set()
+        for test, _pol in guards_of(n, g.node):
+            # time-stamp attributes in the test itself and in the locals it mentions
+            exprs = [test]
+            for x in ast.walk(test):
+                if isinstance(x, ast.Name):
+                    exprs += [a.value for a in walk_own(g.node) if isinstance(a, ast.Assign)
+                              and any(isinstance(t, ast.Name) and t.id == x.id for t in a.targets)]
+            for e in exprs:
+                for x in ast.walk(e):
+                    if isinstance(x, ast.Attribute) and x.attr in ('st_atime', 'st_mtime', 'st_ctime', 'st_atime_ns', 'st_mtime_ns', 'st_ctime_ns'):
+                        stamps.add(x.attr.replace('_ns', ''))
+                    if isinstance(x, ast.Call) and norm(x.func) in ('os.path.getatime', 'os.path.getmtime', 'os.path.getctime'):
+                        stamps.add('st_' + norm(x.func)[-5:])
+        rep.ob('CACHE-7', CACHE, g.qual, '%s decided by %s' % (norm(n), sorted(stamps) or 'no time stamp'),
+               stamps == {'st_atime'},
+               'an entry is removed by %s: loading an entry only updates its access time, an entry in use can be deleted'
+               % (sorted(stamps) or 'something else than its access time'))
+    rep.minimum('CACHE-7', 1)
